@@ -214,3 +214,37 @@ Lemma redeem_example : redeem_statement.
 Proof.
   split; [vm_compute; reflexivity|]. vm_compute. repeat constructor; discriminate.
 Qed.
+
+(* ---------- C06 / C07 over histories: the claim cursor ---------- *)
+From MD.Proofs Require Import CursorSafe.
+
+(* after [ops0] alice's cursor is 2 (she claimed in epoch 2); bob and carol then stake, wait, claim, close *)
+Definition cursor_others0 : list op :=
+  [ Tx "carol" "FM" (WFm (FmPosCreate (Some "c") 86400 None)) [(lp0, 7)];
+    Tx "bob" "FM" (WFm (FmClaim None)) [];
+    SetBlock (day 3);
+    Tx "bob" "FM" (WFm (FmClaim None)) [];
+    Tx "carol" "FM" (WFm (FmClaim (Some 3))) [];
+    Tx "bob" "FM" (WFm (FmPosClose "p-1" None)) [];
+    SetBlock (day 4);
+    Tx "carol" "FM" (WFm (FmClaim None)) [] ].
+
+Definition cursor_check : bool :=
+  match genesis_world g0 with
+  | Err _ => false
+  | Ok w0 =>
+      let w1 := run w0 ops0 in
+      let w2 := run w1 cursor_others0 in
+      match cursor (w_fm w1) "alice", cursor (w_fm w2) "alice", cursor (w_fm w1) "carol", cursor (w_fm w2) "carol" with
+      | Some 2, Some 2, None, Some 4 => accepted_all w1 cursor_others0      (* carol's own cursor did move; all accepted *)
+      | _, _, _, _ => false
+      end
+  end.
+
+Definition cursor_statement : Prop :=
+  cursor_check = true /\ Forall (not_signed_by "alice") cursor_others0.
+
+Lemma cursor_example : cursor_statement.
+Proof.
+  split; [vm_compute; reflexivity|]. unfold cursor_others0. repeat constructor; cbn; discriminate.
+Qed.
